@@ -374,7 +374,7 @@ func (m *refModel) applyRef(a pt.Action, vals []interface{}, commit bool) refRes
 		if a.Op == "del1" {
 			n = 1
 		}
-		if a.P < 0 || n < 1 || a.P+n > len(m.li) {
+		if a.P < 0 || n < 1 || a.P > len(m.li) || n > len(m.li)-a.P {
 			return refResult{cls: clsInvalid, why: "range-out-of-bounds"}
 		}
 		old := append([]interface{}{}, m.li[a.P:a.P+n]...)
@@ -449,7 +449,7 @@ func (m *refModel) applyRef(a pt.Action, vals []interface{}, commit bool) refRes
 			return refResult{cls: clsValid, ret: "-", nops: 1}
 		case "dupd":
 			n := len(vals)
-			if a.P < 0 || n < 1 || a.P+n > len(t.arr) {
+			if a.P < 0 || n < 1 || a.P > len(t.arr) || n > len(t.arr)-a.P {
 				return refResult{cls: clsInvalid, why: "range-out-of-bounds"}
 			}
 			if hasNil {
@@ -465,7 +465,7 @@ func (m *refModel) applyRef(a pt.Action, vals []interface{}, commit bool) refRes
 			if a.Op == "darrdel1" {
 				n = 1
 			}
-			if a.P < 0 || n < 1 || a.P+n > len(t.arr) {
+			if a.P < 0 || n < 1 || a.P > len(t.arr) || n > len(t.arr)-a.P {
 				return refResult{cls: clsInvalid, why: "range-out-of-bounds"}
 			}
 			old := append([]*rnode{}, t.arr[a.P:a.P+n]...)
@@ -568,6 +568,7 @@ func c03Calls(ref *refModel, alpha string) []pt.Action {
 		add(pt.Action{Op: "del1", P: -1})
 		add(pt.Action{Op: "del", P: 0, N: 2})
 		add(pt.Action{Op: "del", P: 0, N: 0})
+		add(pt.Action{Op: "del", P: 1, N: math.MaxInt}) // position + count wraps around
 		add(pt.Action{Op: "upd", P: n, V: "p", N: 1})
 		add(pt.Action{Op: "upd", P: 0, V: "nil", N: 1})
 		if rich {
@@ -623,7 +624,8 @@ func c03Calls(ref *refModel, alpha string) []pt.Action {
 			}
 			add(pt.Action{Op: "darrdel1", T: t, P: n})
 			add(pt.Action{Op: "darrdel", T: t, P: 0, N: 2})
-			add(pt.Action{Op: "dput", T: t, K: "a", V: "p"}) // wrong container kind
+			add(pt.Action{Op: "darrdel", T: t, P: 1, N: math.MaxInt}) // position + count wraps around
+			add(pt.Action{Op: "dput", T: t, K: "a", V: "p"})          // wrong container kind
 			if rich {
 				add(pt.Action{Op: "dins", T: t, P: -1, V: "p", N: 1})
 				add(pt.Action{Op: "dupd", T: t, P: 0, V: "a", N: 1})
@@ -928,6 +930,7 @@ func invalidReads(r *Replica) []badRead {
 		try("List.GetMany", fmt.Sprintf("List.GetMany(0, %d) on %d elements", n+1, n), func() (interface{}, error) { v, e := r.li.GetMany(0, n+1); return v, isNil(e) })
 		try("List.GetMany", "List.GetMany(0, 0)", func() (interface{}, error) { v, e := r.li.GetMany(0, 0); return v, isNil(e) })
 		try("List.GetMany", "List.GetMany(0, -1)", func() (interface{}, error) { v, e := r.li.GetMany(0, -1); return v, isNil(e) })
+		try("List.GetMany", fmt.Sprintf("List.GetMany(1, MaxInt) on %d elements", n), func() (interface{}, error) { v, e := r.li.GetMany(1, math.MaxInt); return v, isNil(e) })
 	case r.doc != nil:
 		val := func(d orda.Document) interface{} {
 			if d == nil {
@@ -973,6 +976,7 @@ func invalidReads(r *Replica) []badRead {
 				}
 				byPath("x")
 				try("Document.GetManyFromArray", fmt.Sprintf("GetManyFromArray(0, %d) on the %d elements at %q", n+1, n, path), func() (interface{}, error) { x, e := d.GetManyFromArray(0, n+1); return len(x), isNil(e) })
+				try("Document.GetManyFromArray", fmt.Sprintf("GetManyFromArray(1, MaxInt) on the %d elements at %q", n, path), func() (interface{}, error) { x, e := d.GetManyFromArray(1, math.MaxInt); return len(x), isNil(e) })
 				try("Document.GetManyFromArray", fmt.Sprintf("GetManyFromArray(0, 0) at %q", path), func() (interface{}, error) { x, e := d.GetManyFromArray(0, 0); return len(x), isNil(e) })
 				try("Document.GetFromObject", fmt.Sprintf("GetFromObject(\"a\") on the array at %q", path), func() (interface{}, error) { x, e := d.GetFromObject("a"); return val(x), isNil(e) })
 				for i := 0; i < n; i++ {
